@@ -335,6 +335,10 @@ func (f *file) writeBlobAt(op string, p blob.Blob, off int64) (n int, writeOff i
 	}
 	size := int64(data.Len())
 	if f.flag&hackpadfs.FlagAppend != 0 {
+		if p.Len() == 0 {
+			// nothing to append: like os.File, the offset does not move to the end of the file
+			return 0, off, nil
+		}
 		off = size
 	}
 	if off < 0 {
